@@ -28,6 +28,11 @@ CHECKS = {
    "All operation sequences over a 19-record alphabet x {parse_record, parse_record_nocopy} + reset up to the stated depth, all k-way splits (incl. empty fragments and cuts inside the header) of every catalogue payload interleaved with foreign-type records / nocopy / reset to fixpoint, and the 10 MiB cap histories are executed on the real object; every transition is compared with the reference model (value with slice provenance, in-progress flag, buffer, state preservation on refusals).",
    "Trusted: parse_tls_record_with_header as the inner one-shot oracle (its correctness is C03/C04); payloads <= 45 bytes; S0 depth bound as reported in the evidence.",
    "DESIGN.md section 3 C07"),
+ "C02": (True, "exploration",
+   "bounded-exhaustive enumeration of the header space (type x declared length x version x cut point) and of record payloads over positional alphabets, against a reference framing function",
+   "Complete sweeps of the 5-byte header fields (all declared lengths, all types, all versions) at every characteristic cut point, every prefix of boundary-length records, and every payload string up to the stated length per content type; the streaming contract (Incomplete iff strict prefix, exact Needed), the cap and exact consumption are decided for each.",
+   "Trusted: the 10-line reference framing in c02.rs and the strict walker for the envelope-only parsers. Payload space is bounded (alphabet and length reported in the evidence); quick tier thins the (type x length) product as stated in its rule.",
+   "DESIGN.md section 3 C02"),
 }
 PENDING_REASON = "check not built yet in this round (work in progress; see DESIGN.md appendix C for the build order)"
 
